@@ -30,6 +30,8 @@ structure SpecSt where
   /-- every value ever committed per bucket and key (to recognise a stale value resurrected by an
   unlocked Merge: finding D-MERGE-NOLOCK) -/
   hist : Assoc (Assoc (List Bytes)) := []
+  /-- committed state at each `backup <n>` -/
+  backups : List (Nat × SpecDB) := []
   deriving Inhabited
 
 /-- abstraction of a model state: what the indexes say, structure by structure -/
@@ -182,8 +184,10 @@ def step (sp : SpecSt) (model : State) (cmd : String) (impl : String) : SpecOut 
   | "capture" => { st := sp, expect := none }
   | "fault" => { st := sp, expect := none }
   | "concmerge" => { st := { sp with concMerge := true }, expect := none }
+  | "backup" => { st := { sp with backups := (N 1, sp.committed) :: sp.backups }, expect := some (ex (if sp.opened then "ok" else "err")) }
   | "backupobs" =>
-    let want := "ok open=ok obs=" ++ obs sp.committed (N 2)
+    let at_ := match sp.backups.find? (·.1 == N 1) with | some b => b.2 | none => sp.committed
+    let want := "ok open=ok obs=" ++ obs at_ (N 2)
     let implNorm := match (resPayload impl).splitOn " obs=" with
       | [h, o] => "ok " ++ h ++ " obs=" ++ (dropEmpties ("ok " ++ o)).drop 3
       | _ => impl
